@@ -17,7 +17,7 @@ func init() {
 		Rule: "O1 value domain: for each of the 29 payload types, field tuples over the full Go type domain of every leaf (all uint8 / int8 values, both bools, boundary + seeded random uint32 frequencies and durations incl. negative ones): exhaustive product when it has <= 70k tuples, otherwise every value of every field against seeded in-range values of the others plus random mixed tuples; MarshalBinary must either fail or produce bytes the library decodes back to the same tuple at wire resolution, must accept every tuple inside the spec range and refuse every tuple the wire format cannot represent. O2 streams: seeded command sequences per direction filling FOpts (<= 15 bytes) and port-0 payloads (<= 242 bytes) incl. every CID 0..255 as a stream member; decoding the spec-built byte string must return exactly the sequence; registered sizes (hook snapshot) equal spec and encoded lengths; over-long FOpts (16..300 bytes) and MAC commands with FPort != 0 must be refused. O3 histories: seeded histories of RegisterProprietaryMACCommand(dir, cid 0..255, size -3..6) interleaved with stream decodes in both directions, each decode predicted by a sequential registry model; no decode may panic. Distinct = (payload, field, value class, verdict) / (direction, stream length class) / (history op kinds).",
 		Assumptions: []string{
 			"field ranges from harness/spec/wire.go; values of the int-typed DwellTime enum other than its two constants are not generated",
-			"wire resolution: frequency exact; DeviceTimeAns floor to 1/256 s; NewChannelReq 100 Hz below 1.2 GHz and 200 Hz from 2.4 GHz",
+			"wire resolution: frequency exact; DeviceTimeAns either neighbouring 1/256 s step; NewChannelReq 100 Hz below 1.2 GHz and 200 Hz from 2.4 GHz",
 		},
 		MinEvals: 1000,
 		Run:      runC07,
@@ -145,11 +145,11 @@ func c07Tuple(c *core.Ctx, l *spec.Layout, vals []int64, focus int) {
 	}
 	got, _ := core.Flatten(back)
 	for i, f := range l.Fields {
-		want := vals[i]
+		okv := got[i] == vals[i]
 		if _, ok := f.ToWire(vals[i]); ok {
-			want = f.WireResolution(vals[i])
+			okv = f.Lossless(vals[i], got[i])
 		}
-		if got[i] != want {
+		if !okv {
 			cls := "lossy"
 			if !representable && i == bad {
 				cls = "out-of-range-accepted"
@@ -611,6 +611,20 @@ func c07Histories(c *core.Ctx) {
 				case size == 0:
 					if err != nil {
 						c.Violate("C07|history|zero-size-refused", "%v", err)
+					} else if prev, was := model[up][cid]; was {
+						// an accepted size-0 registration of a CID that has a size already: the library leaves the
+						// earlier size in place ("nothing to register"); replacing it by 0 bytes is the other
+						// reading of "registered with a size is framed with that size". The property does not
+						// choose, so the model follows what the registry reports - anything else is a violation.
+						_, got, gerr := lorawan.GetMACPayloadAndSize(up, lorawan.CID(cid))
+						switch {
+						case gerr == nil && got == prev:
+						case gerr != nil || got == 0:
+							delete(model[up], cid)
+							trace = append(trace, "(registry now reports no size for it)")
+						default:
+							c.Violate("C07|history|zero-size-registration", "after RegisterProprietaryMACCommand(%v, %#x, 0) on a CID registered with %d bytes the registry reports %d bytes | %v", up, cid, prev, got, trace)
+						}
 					}
 				default:
 					if err != nil {
